@@ -14,6 +14,7 @@ import (
 // methods) or URI (for resources/read).
 type methodCache[R CacheableResult] struct {
 	mu           sync.Mutex
+	gen          uint64 // incremented by every invalidation
 	cachedValues map[string]*cacheEntry[R]
 }
 
@@ -42,9 +43,35 @@ func (mc *methodCache[R]) get(key string) (R, bool) {
 	return entry.result, true
 }
 
+// generation returns a token identifying the current invalidation epoch of
+// the cache. Callers that fetch a result from the server read it before sending
+// the request and pass it to [methodCache.putIfCurrent], so that a result
+// fetched concurrently with an invalidation is not cached.
+func (mc *methodCache[R]) generation() uint64 {
+	mc.mu.Lock()
+	defer mc.mu.Unlock()
+	return mc.gen
+}
+
+// putIfCurrent is like put, but does nothing if the cache has been
+// invalidated since gen was obtained from [methodCache.generation]: in that
+// case result may predate the change that caused the invalidation.
+func (mc *methodCache[R]) putIfCurrent(gen uint64, key string, result R) {
+	mc.mu.Lock()
+	defer mc.mu.Unlock()
+	if mc.gen == gen {
+		mc.putLocked(key, result)
+	}
+}
+
 func (mc *methodCache[R]) put(key string, result R) {
 	mc.mu.Lock()
 	defer mc.mu.Unlock()
+	mc.putLocked(key, result)
+}
+
+// putLocked stores result under key. mc.mu must be held.
+func (mc *methodCache[R]) putLocked(key string, result R) {
 	if mc.cachedValues == nil {
 		mc.cachedValues = make(map[string]*cacheEntry[R])
 	}
@@ -57,12 +84,14 @@ func (mc *methodCache[R]) put(key string, result R) {
 func (mc *methodCache[R]) invalidate() {
 	mc.mu.Lock()
 	defer mc.mu.Unlock()
+	mc.gen++
 	clear(mc.cachedValues)
 }
 
 func (mc *methodCache[R]) invalidateKey(key string) {
 	mc.mu.Lock()
 	defer mc.mu.Unlock()
+	mc.gen++
 	delete(mc.cachedValues, key)
 }
 
